@@ -2,7 +2,23 @@
 (tools/gen_manifest.py).  A property appears in CLAIMS only once its check is
 built, quiet on the reference tree and shown to fire on seeded variants."""
 
-CLAIMS: dict[str, dict[str, str]] = {}
+NOTE = ("Static analysis of /repo's current working tree only (Python ast, rustc MIR). A green result means every "
+        "decided structural clause holds at every site; the value-level clauses listed as 'not decided' in "
+        "DESIGN.md section 4 are outside the claim. Trusted: CPython ast/re parsers, the frozen idiom and "
+        "intentional-drop tables in /verif/pvs (each entry confirmed by reading), stdlib datetime/zoneinfo semantics.")
+
+CLAIMS: dict[str, dict[str, str]] = {
+    "C01": {
+        "text": "Static rule checking: all aware paths of the two convert() methods return dt.astimezone(self); "
+                "in_timezone/in_tz funnel into it; every re-wrap site on a conversion path copies 7 fields + tzinfo + "
+                "fold; FixedTimezone's tzinfo contract; UTC-frame algebra of from_timestamp/add; int_timestamp units; "
+                "instance() of foreign aware values preserves the instant for every tzinfo kind. These are necessary "
+                "conditions of instant preservation visible in the code on every path; tz-database agreement itself "
+                "is run-time behaviour of zoneinfo and not claimed.",
+        "note": NOTE,
+        "technique": "AST path enumeration (must-return), reconstruction-site field fidelity, offset-frame algebra",
+    },
+}
 
 NOT_APPLICABLE: dict[str, str] = {}
 
